@@ -50,7 +50,10 @@ const (
 	zzEmptied  // key present with the empty value of its type ("", 0, 0s, null section, [])
 	zzInvalid  // well-typed but not allowed (wrong version, not a host, bad CIDR, unknown level, 300 for uint8, -1 for mtu)
 	zzMistyped // wrong YAML node kind or unparsable scalar
-	zzAltValid // another allowed value (N9 for N3, debug for info, dns name for address)
+	zzAltValid // another allowed value (N9 for N3, debug for info; for the two address fields the other two
+	// syntactic classes of a host: a DNS name for the interface address, an IPv6 literal for the PFCP
+	// listen address - the same text that is NOT acceptable as node id, so that two faults can put
+	// one unresolvable value into both fields)
 	zzNearMiss // an invalid value that begins or ends like a valid one (N39, gtp5gx, 10.60.0.0/16x); for the
 	// node id: an IPv6 literal, which is a well-formed host but has no IPv4 address to resolve to
 	zzNearMiss2 // the other kind of near miss: a valid value with something in FRONT of it (xinfo, xN3, xgtp5g)
@@ -59,7 +62,12 @@ const (
 
 var zzKindName = [zzNK]string{"ok", "deleted", "emptied", "invalid", "mistyped", "alt-valid", "near-miss", "near-miss-prefix"}
 
-type zzDoc struct{ k [zzNF]int }
+type zzDoc struct {
+	k [zzNF]int
+	// second: the interface and DNN entries described by k come second in their lists, behind an
+	// entry without any fault ("well-formed interface ENTRIES", "DNN ENTRIES with valid CIDRs")
+	second bool
+}
 
 // zzScalar: the YAML text of a scalar field under fault kind k; "" + false = key absent.
 func zzScalar(f, k int) (string, bool) {
@@ -67,7 +75,7 @@ func zzScalar(f, k int) (string, bool) {
 		zzFForwarder: "gtp5g", zzFIfAddr: "127.0.0.8", zzFIfType: "N3", zzFIfMTU: "1400", zzFDnn: "internet", zzFCidr: "10.60.0.0/16", zzFLevel: "info"}
 	bad := [zzNF]string{zzFVersion: "1.0.0", zzFPfcpAddr: `"no host!"`, zzFNodeID: `"no host!"`, zzFTimeout: "0s", zzFMaxRetrans: "300",
 		zzFForwarder: "other", zzFIfAddr: `"no host!"`, zzFIfType: "N6", zzFIfMTU: "-1", zzFDnn: `""`, zzFCidr: "10.60.0.0/33", zzFLevel: "verbose"}
-	alt := [zzNF]string{zzFVersion: "1.0.3", zzFPfcpAddr: "upf.free5gc.org", zzFNodeID: "127.0.0.9", zzFTimeout: "1500ms", zzFMaxRetrans: "255",
+	alt := [zzNF]string{zzFVersion: "1.0.3", zzFPfcpAddr: `"::1"`, zzFNodeID: "127.0.0.9", zzFTimeout: "1500ms", zzFMaxRetrans: "255",
 		zzFForwarder: "gtp5g", zzFIfAddr: "upf.free5gc.org", zzFIfType: "N9", zzFIfMTU: "9000", zzFDnn: "ims", zzFCidr: "10.61.0.0/24", zzFLevel: "debug"}
 	near := [zzNF]string{zzFVersion: "1.0.3x", zzFPfcpAddr: "127.0.0.8/24", zzFNodeID: `"::1"`, zzFTimeout: "0s", zzFMaxRetrans: "300",
 		zzFForwarder: "gtp5gx", zzFIfAddr: "127.0.0.8/24", zzFIfType: "N39", zzFIfMTU: "-1", zzFDnn: `""`, zzFCidr: "10.60.0.0/16x", zzFLevel: "infox"}
@@ -148,7 +156,11 @@ func (d *zzDoc) render() string {
 		case zzInvalid, zzMistyped, zzNearMiss, zzNearMiss2:
 			sb.WriteString("  ifList: 5\n")
 		default:
-			sb.WriteString("  ifList:\n    - name: n3.upf\n")
+			sb.WriteString("  ifList:\n")
+			if d.second {
+				sb.WriteString("    - name: n3a.upf\n      addr: 127.0.0.9\n      type: N3\n      mtu: 1400\n")
+			}
+			sb.WriteString("    - name: n3.upf\n")
 			kv("      ", "addr", zzFIfAddr)
 			kv("      ", "type", zzFIfType)
 			kv("      ", "mtu", zzFIfMTU)
@@ -161,7 +173,11 @@ func (d *zzDoc) render() string {
 	case zzInvalid, zzMistyped, zzNearMiss, zzNearMiss2:
 		sb.WriteString("dnnList: 5\n")
 	default:
-		sb.WriteString("dnnList:\n  - natifname: eth0\n")
+		sb.WriteString("dnnList:\n")
+		if d.second {
+			sb.WriteString("  - natifname: eth1\n    dnn: first\n    cidr: 10.61.0.0/24\n")
+		}
+		sb.WriteString("  - natifname: eth0\n")
 		kv("    ", "dnn", zzFDnn)
 		kv("    ", "cidr", zzFCidr)
 	}
@@ -260,6 +276,9 @@ func (d *zzDoc) decode(c *Config) bool {
 			}
 			i.MTU = uint32(n)
 			g.IfList = []IfInfo{i}
+			if d.second {
+				g.IfList = []IfInfo{{Name: "n3a.upf", Addr: "127.0.0.9", Type: "N3", MTU: 1400}, i}
+			}
 		}
 		c.Gtpu = g
 	}
@@ -278,6 +297,9 @@ func (d *zzDoc) decode(c *Config) bool {
 			return false
 		}
 		c.DnnList = []DnnList{e}
+		if d.second {
+			c.DnnList = []DnnList{{NatIfName: "eth1", Dnn: "first", Cidr: "10.61.0.0/24"}, e}
+		}
 	}
 	switch d.k[zzFLogger] {
 	case zzDeleted, zzEmptied:
@@ -348,6 +370,9 @@ func (d *zzDoc) tag() string {
 			s += " " + zzFieldName[f] + "=" + zzKindName[d.k[f]]
 		}
 	}
+	if d.second {
+		s += " (list entries second, behind a good one)"
+	}
 	if s == "" {
 		return "document: reference"
 	}
@@ -366,6 +391,15 @@ func zzC20Document(nfaults int) {
 		d.k[f] = 1 + nondetChoice("kind", zzNK-1)
 		last = f
 	}
+	entryFault := false
+	for _, f := range []int{zzFIfAddr, zzFIfType, zzFIfMTU, zzFDnn, zzFCidr} {
+		if d.k[f] != zzNone {
+			entryFault = true
+		}
+	}
+	if entryFault || last < 0 {
+		d.second = nondetBool("list-entries-second")
+	}
 	zzTag(d.tag())
 	path := zzPutDoc(&d)
 	cfg, err := ReadConfig(path)
@@ -379,11 +413,13 @@ func zzC20Document(nfaults int) {
 		same := cfg.Version == ref.Version && cfg.Pfcp != nil && ref.Pfcp != nil && *cfg.Pfcp == *ref.Pfcp &&
 			cfg.Gtpu != nil && ref.Gtpu != nil && cfg.Gtpu.Forwarder == ref.Gtpu.Forwarder && len(cfg.Gtpu.IfList) == len(ref.Gtpu.IfList) &&
 			len(cfg.DnnList) == len(ref.DnnList) && cfg.Logger != nil && ref.Logger != nil && *cfg.Logger == *ref.Logger
-		if same && len(cfg.Gtpu.IfList) == 1 {
-			same = cfg.Gtpu.IfList[0] == ref.Gtpu.IfList[0]
-		}
-		if same && len(cfg.DnnList) == 1 {
-			same = cfg.DnnList[0] == ref.DnnList[0]
+		if same {
+			for i := range cfg.Gtpu.IfList {
+				same = same && cfg.Gtpu.IfList[i] == ref.Gtpu.IfList[i]
+			}
+			for i := range cfg.DnnList {
+				same = same && cfg.DnnList[i] == ref.DnnList[i]
+			}
 		}
 		zzAssert("C20.document.values-unchanged", same)
 		zzCover("C20.document.accepted")
